@@ -749,6 +749,23 @@ def chk_native(T, v, M, rng):
         if a != b:
             out.append(fail('native', T, v, '%s: python value + asn1Spec encodes differently from the value object' % ename,
                             got=b, want=a, codec=ename))
+    # ... a scalar value object handed over together with its type (the guiding type re-initialises itself from it)
+    if T['k'] in U.RANDOM_LEAVES:
+        for ename, enc in (('BER', be), ('DER', de)):
+            n += 1
+            try:
+                a = enc.encode(bridge.to_value(T, v))
+            except Exception:
+                continue
+            try:
+                b = enc.encode(bridge.to_value(T, v), asn1Spec=spec)
+            except Exception as ex:
+                out.append(fail('native', T, v, '%s: encoding the value object with asn1Spec raised %s: %s' % (
+                    ename, type(ex).__name__, str(ex)[:150]), codec=ename))
+                continue
+            if a != b:
+                out.append(fail('native', T, v, '%s: value object + asn1Spec encodes differently from the value object alone' % ename,
+                                got=b, want=a, codec=ename))
     return out, n
 
 
